@@ -139,6 +139,40 @@ func c19TaggedHeads(c *rt.Ctx, sub0 int) {
 			}
 		}
 	}
+	// the remaining kinds (QTagged2): the member set while the first member is empty, and the reverse
+	tr, str := true, "s"
+	set2 := map[string]func(q *zoo.QTagged2){
+		"b": func(q *zoo.QTagged2) { q.B = true }, "i8": func(q *zoo.QTagged2) { q.I8 = -3 }, "u16": func(q *zoo.QTagged2) { q.U16 = 9 }, "f32": func(q *zoo.QTagged2) { q.F32 = 1.5 },
+		"f64": func(q *zoo.QTagged2) { q.F64 = -2.25 }, "by": func(q *zoo.QTagged2) { q.By = []byte{1, 2} }, "ar": func(q *zoo.QTagged2) { q.Ar = [2]int{1, 2} }, "st": func(q *zoo.QTagged2) { q.St = zoo.QLeaf{P: 1, Q: "q"} },
+		"bp": func(q *zoo.QTagged2) { q.BP = &tr }, "sp": func(q *zoo.QTagged2) { q.SP = &str }, "u": func(q *zoo.QTagged2) { q.U = 7 },
+	}
+	for _, m := range []string{"b", "i8", "u16", "f32", "f64", "by", "ar", "st", "bp", "sp", "u"} {
+		for _, memberSet := range []bool{true, false} {
+			q := &zoo.QTagged2{Z: 1}
+			if memberSet {
+				set2[m](q)
+			} else {
+				q.Pad = 77
+			}
+			for _, cs := range []struct {
+				v any
+				t reflect.Type
+				q *qnode
+			}{
+				{*q, reflect.TypeOf(*q), &qnode{subs: []*qnode{{name: m}}}},
+				{q, reflect.TypeOf(q), &qnode{subs: []*qnode{{name: m}}}},
+				{*q, reflect.TypeOf(*q), &qnode{subs: []*qnode{{name: m}, {name: "z"}}}},
+				{q, reflect.TypeOf(q), &qnode{subs: []*qnode{{name: "pad"}, {name: m}}}},
+			} {
+				sub++
+				if !c.Cur(sub, fmt.Sprintf("shapes=core\nomitempty member %s of QTagged2 (set=%v) as head of the filtered program: %s", m, memberSet, cs.q)) {
+					continue
+				}
+				c19Check(c, sub, cs.v, cs.t, cs.q, "first-use")
+				c19Check(c, sub, cs.v, cs.t, cs.q, "after-other-queries")
+			}
+		}
+	}
 	c.Obs("tagged_head_queries", int64(sub-sub0))
 	c.NonTrivial("tagged-heads")
 }
